@@ -1393,3 +1393,12 @@ Proof.
     destruct (spec_send p bd (skipn (length l1) sc) t1) as [[r2 t2] l2]. injection E2 as R2 T2 L2.
     congruence.
 Qed.
+
+(* blobStore.Mount declined with 202: the upload reads from an io.ReadCloser (GetBody nil): the
+   PUT is exactly one request, whatever the registry answers *)
+Lemma mount_fallback_once authc warm0 p cn data sc :
+  match u_put (blob_push_gen authc warm0 p cn (mkBody KOneShot data) sc) with
+  | Some put => length (auth_attempts put) = 1%nat
+  | None => True
+  end.
+Proof. apply blob_push_not_replayable. apply oneshot_not_replayable. reflexivity. Qed.
